@@ -266,6 +266,8 @@ class MotionCommander:
         distance = math.sqrt(distance_x_m * distance_x_m +
                              distance_y_m * distance_y_m +
                              distance_z_m * distance_z_m)
+        if distance == 0.0:
+            return
         flight_time = distance / velocity
 
         velocity_x = velocity * distance_x_m / distance
